@@ -231,6 +231,32 @@ def run(fx, rep):
     res = [s for s in sites if s['paths'] == ['Comprehension.result']]
     okk = len(res) == 1 and all(res[0]['block'] not in body for _, _, _, body, _ in loops) and all(res[0]['block'] in ev.reachable_from([bi]) for bi, _, _, _, _ in loops)
     rep.check(okk, 'R2', 'result-after-loop', res[0]['loc'] if res else ev.loc(), 'result evaluated once, after the loop', 'result is not evaluated once after the loop')
+    # every non-error exit of the comprehension passes through the evaluation of `result`
+    if res:
+        rb = res[0]['block']
+        entry_sites = [s_ for s_ in sites if s_['paths'] in (['Comprehension.accu_init'], ['Comprehension.iter_range'])]
+        starts = [min(entry_sites, key=lambda x: x['block'])['block']] if entry_sites else []
+        # arm entry: the switch target that dominates all comprehension sites
+        arm_entry = None
+        sw0 = ev.blocks[0]['term']
+        if sw0['k'] == 'SwitchInt':
+            for v, tg in sw0['arms']:
+                if all(ev.dominates(tg, s_['block']) for s_ in sites if s_['paths'][0].startswith('Comprehension.')):
+                    arm_entry = tg
+        okk = arm_entry is not None
+        bad = []
+        if okk:
+            without = ev.reachable_from([arm_entry], blocked={rb})
+            for blk in sorted(without):
+                t_ = ev.blocks[blk]['term']
+                if t_['k'] == 'Call' and t_['dest']['l'] == 0 and not t_['dest']['p'] and F.norm_callee(t_) != 'std::ops::FromResidual::from_residual':
+                    bad.append(F.loc_of(t_['span']))
+                for s_ in ev.blocks[blk]['stmts']:
+                    if s_['k'] == 'Assign' and s_['place']['l'] == 0 and not s_['place']['p'] and not (s_['rv']['k'] == 'Aggregate' and s_['rv'].get('variant') == 'Err'):
+                        bad.append(F.loc_of(s_['span']))
+            okk = not bad
+        rep.check(okk, 'R2', 'every-normal-exit-evaluates-result', res[0]['loc'], 'the only non-error way out of the comprehension is the evaluation of `result`',
+                  'the comprehension can return a value without evaluating `result` (at %s): e.g. exists_one over an empty range would yield the accumulator 0 instead of `@result == 1`' % bad)
     # accumulator initialised from accu_init
     w0 = [(wb, wt) for wb, wt in writes if not any(wb in body for _, _, _, body, _ in loops)]
     okk = len(w0) == 1 and all(F.term_contains(x, lambda z: z[0] == 'f' and z[2] == 'accu_var') for x in pv.of_operand(w0[0][1]['args'][1])) and \
